@@ -686,7 +686,7 @@ func init() {
 	runners["C10"] = histRunner("C10", "c10_run", false, 250, 3000, general)
 	runners["C11"] = histRunner("C11", "c11_run", false, 250, 3000, func(r *rng, i int) seqOpts { o := general(r, i); o.hostile = r.chance(1, 3); return o })
 	runners["C12"] = histRunner("C12", "c12_run", false, 250, 3000, general)
-	runners["C13"] = histRunner("C13", "c13_run", false, 250, 3000, hostile)
+	runners["C13"] = histRunner("C13", "c13_run_full", false, 250, 3000, hostile)
 	runners["C14"] = histRunner("C14", "c14_run", false, 250, 3000, general)
 	runners["C16"] = histRunner("C16", "c16_run", true, 200, 2000, func(r *rng, i int) seqOpts {
 		o := outbound(r, i)
